@@ -520,7 +520,9 @@ func (b *builder) codesep() {
 
 func (b *builder) randSigBlob() []byte {
 	r := b.r
-	switch r.Intn(7) {
+	switch r.Intn(8) {
+	case 7:
+		return derBoundaryBlob(r)
 	case 6: // strict DER with tiny integers (and occasionally r or s >= n)
 		d := []byte{0x30, 0x06, 0x02, 0x01, byte(1 + r.Intn(127)), 0x02, 0x01, byte(1 + r.Intn(127))}
 		if r.Chance(1, 4) {
@@ -852,3 +854,50 @@ func (b *builder) program(nFrag int, withSigs bool) {
 }
 
 func hexBytes(s string) ([]byte, error) { return hex.DecodeString(s) }
+
+// derBoundaryBlob builds a DER-shaped signature whose length fields sit at, just below or just past the values that
+// still fit the blob (truncations with a matching sequence length, an R that runs to the last byte, S lengths off by
+// one), followed by a hash type byte: the shapes on which the encoding checker indexes closest to the end of its input.
+func derBoundaryBlob(r *mon.Rand) []byte {
+	ht := byte([]int{1, 2, 3, 0x81, 0x82, 0x83}[r.Intn(6)])
+	integer := func(n int) []byte {
+		v := r.Bytes(n)
+		v[0] &= 0x7f
+		if v[0] == 0 {
+			v[0] = 1
+		}
+		return v
+	}
+	rl, sl := 1+r.Intn(33), 1+r.Intn(33)
+	if r.Chance(1, 3) {
+		rl, sl = 1+r.Intn(4), 1+r.Intn(4)
+	}
+	d := append([]byte{0x30, byte(4 + rl + sl), 0x02, byte(rl)}, integer(rl)...)
+	d = append(d, 0x02, byte(sl))
+	d = append(d, integer(sl)...)
+	switch r.Intn(6) {
+	case 0: // cut anywhere; the sequence length follows the cut
+		d = d[:r.Intn(len(d)+1)]
+		if len(d) >= 2 {
+			d[1] = byte(len(d) - 2)
+		}
+	case 1: // an R length that reaches the end of the blob, or stops one or two bytes short of it / goes one past it
+		total := 8 + r.Intn(14)
+		d = make([]byte, total)
+		for i := range d {
+			d[i] = []byte{0x02, 0x01, 0x00, 0x7f, byte(r.Intn(256))}[r.Intn(5)]
+		}
+		d[0], d[1], d[2] = 0x30, byte(total-2), 0x02
+		d[3] = byte(total - 5 + r.Intn(4) - 2)
+	case 2: // S length off by one or two
+		d[5+rl] = byte(sl + r.Intn(5) - 2)
+	case 3: // sequence length off by one
+		d[1] = byte(int(d[1]) + 2*r.Intn(2) - 1)
+	case 4: // R length off by one or two (S marker and length are then read from inside R or S)
+		d[3] = byte(rl + r.Intn(5) - 2)
+	}
+	if r.Chance(1, 8) {
+		return d // no hash type byte at all
+	}
+	return append(d, ht)
+}
